@@ -238,6 +238,19 @@ func runC06(w *h.W, batch int) {
 					}
 				}
 			}
+			if bad == "" && interval > 0 {
+				// the histogram on its own (no total, no aggregation, a small page): counting must not stop at the page size
+				hres, err := cl.Search(sdb.ProxyReq{Query: text, From: from, To: to, Size: size, Asc: asc, Interval: interval})
+				w.Count("histogram_only_requests", 1)
+				switch {
+				case err != nil:
+					bad = "histogram-only request failed: " + err.Error()
+				case !histEqual(histFromQPR(hres.QPR), exp.Hist):
+					bad = fmt.Sprintf("histogram-only request (size=%d, no total): got=%v expected=%v", size, hres.QPR.Histogram, exp.Hist)
+				case !idsEqual(hres.IDs, exp.IDs):
+					bad = fmt.Sprintf("histogram-only request ids got=%s expected=%s", fmtIDs(hres.IDs, 10), fmtIDs(exp.IDs, 10))
+				}
+			}
 			if bad != "" {
 				fail("wrong-aggregate:proxy", map[string]any{"diff": bad})
 				continue
